@@ -21,3 +21,42 @@ Proof.
   destruct (gen_identity_from_config H HL ed_pk c seed Hs) as (-> & _ & Hn).
   split; [exact Hn|]. exact (gen_file_seed cores entries f c Hl).
 Qed.
+
+(* ------------------------------------------------------------------ the key set-up of Server::new *)
+Require Import RV.Proofs.CodeLib.
+
+Definition ok_any {E A} (x : outcome E A) : option A := match x with Ok a => Some a | _ => None end.
+
+(* the three statements of Server::new that load the seed, make the long-term key and certify the two responders:
+   with a plaintext seed they build exactly the model's server (Model/Server.v server_new) — the IETF responder
+   first, then the classic one, both under the one long-term key made from the configured seed, each with its own
+   online key — or fail where the model fails; with any other kms_protection this build refuses *)
+Theorem gen_server_new_keys_model : forall H, HashLen H -> forall ed_pk ed_sign oi oc c cfg,
+  lc_kms c = KPlaintext ->
+  ok_any (gen_server_new_keys oi oc H ed_pk ed_sign c)
+  = match ok_opt (server_new H ed_pk ed_sign cfg (lc_seed c) oi oc) with
+    | Some s => Some ((lc_seed c, s_srv_value s), s_ietf s, s_classic s)
+    | None => None
+    end.
+Proof.
+  intros H HL ed_pk ed_sign oi oc c cfg Hk. unfold gen_server_new_keys, server_new.
+  rewrite gen_load_seed_model, Hk. cbn [unwrap_c obind].
+  rewrite (gen_ltk_new_model H HL). cbn [obind fst].
+  pose proof (gen_responder_new_model ed_pk ed_sign RfcDraft13 (lc_seed c) oi) as Hi.
+  pose proof (gen_responder_new_model ed_pk ed_sign Google (lc_seed c) oc) as Hc.
+  destruct (gen_responder_new oi ed_pk ed_sign RfcDraft13 tt (lc_seed c)) as [ri| |];
+    destruct (responder_new ed_pk ed_sign RfcDraft13 (lc_seed c) oi) as [ri'| |]; cbn [ok_opt] in Hi; try discriminate Hi;
+    cbn [obind ok_any ok_opt]; try reflexivity.
+  injection Hi as <-.
+  destruct (gen_responder_new oc ed_pk ed_sign Google tt (lc_seed c)) as [rc| |];
+    destruct (responder_new ed_pk ed_sign Google (lc_seed c) oc) as [rc'| |]; cbn [ok_opt] in Hc; try discriminate Hc;
+    cbn [obind ok_any ok_opt]; try reflexivity.
+  injection Hc as <-. reflexivity.
+Qed.
+
+Theorem gen_server_new_keys_refuses_kms : forall H ed_pk ed_sign oi oc c,
+  lc_kms c <> KPlaintext -> gen_server_new_keys oi oc H ed_pk ed_sign c = Panic site_gen.
+Proof.
+  intros H ed_pk ed_sign oi oc c Hk. unfold gen_server_new_keys. rewrite gen_load_seed_model.
+  destruct (lc_kms c); [congruence| |]; reflexivity.
+Qed.
